@@ -158,7 +158,7 @@ pub fn check_case(case: &Case, macros: &Mutex<MacroAlphabets>, tier: Tier) -> Op
     cfg.lattice = sz.clone();
     cfg.macro_cells = sz;
     cfg.tail_points = if tier == Tier::Quick { 2 } else { 4 };
-    cfg.exec_budget = if tier == Tier::Quick { 120_000_000 } else { 6_000_000_000 };
+    cfg.exec_budget = if tier == Tier::Quick { 120_000_000 } else { 1_500_000_000 };
     let mut ex = Explorer::new(&*s, &grid, cfg, Some(macros));
     let res = ex.run(&[]);
     let k = grid.k();
